@@ -1,5 +1,6 @@
 //! C11 — whitespace and redundant parentheses never change the parse.
 use super::c02::programs;
+use super::tokens::TokenSeqs;
 use crate::core::*;
 use crate::engine::{self, Res};
 use crate::gen::show;
@@ -298,6 +299,13 @@ impl Prop for C11 {
                     timeout: Duration::from_secs(600),
                     what: "the same table: redundant parentheses around every subexpression of those trees".into(),
                 },
+                Stage {
+                    name: "dual-role-atom-parens".into(),
+                    len: 1,
+                    chunk: 1,
+                    timeout: Duration::from_secs(900),
+                    what: "the same table, engine against engine, no reference parser: for every sequence of <= 5 tokens over {1, x, %, *, !, ++, (, ), +, -, [, ], NOT, not} that the engine accepts, each atom (not directly after a name, where parentheses would make a call) and each bracketed list wrapped in a pair of parentheses, and a blank added on either side of each token, must give the AST of the original".into(),
+                },
             ],
             rule: "stage 'deep': k postfix statements followed by an operand wrapped in m redundant pairs, and runs of 300 whitespace characters, for k, m in {0,1,8,31,32,33,64,100} (capacity effects; engine against engine). programs = the shared tree set (<= 3 operator nodes over every node kind; string literals containing spaces, parentheses and a double quote), restricted to those the engine parses to the generator's tree; \
                    oracle = AST equality with the parse of the original text; non-trivial = >= 1 operator node, distinct = distinct program (each is re-laid-out in all the ways counted under evaluations)"
@@ -310,6 +318,70 @@ impl Prop for C11 {
     }
     fn run(&self, tier: Tier, stage: usize, a: u64, b: u64, out: &mut WorkerOut) {
         let ops = OpSet::builtin();
+        // an operator no program can contain (its prefix `<-` is not an operator, so the tokenizer
+        // never reaches it): its mere registration must not change how `a<-1` is read
+        expression_engine::register_infix_op("<->", 55, expression_engine::InfixOpType::CALC, expression_engine::InfixOpAssociativity::LEFT, std::sync::Arc::new(|a, _| Ok(a)));
+        if stage == 5 {
+            out.at(0);
+            let _ = super::c02::install_dual_role();
+            let seqs = TokenSeqs { alphabet: super::c02::DUAL_TOKENS.to_vec(), max_len: 5 };
+            for i in 0..seqs.len() {
+                let toks = seqs.tokens(i);
+                let text = toks.join(" ");
+                let base = match engine::parse(&text) {
+                    Res::Ok(a) => a,
+                    _ => continue,
+                };
+                out.nontrivial.insert(hash64(&format!("{:?}", base)));
+                let mut variants: Vec<(String, String)> = Vec::new();
+                for k in 0..toks.len() {
+                    let atom = toks[k] == "1" || toks[k] == "x";
+                    let after_name = k > 0 && toks[k - 1] == "x";
+                    // (a name directly before `(` is the name of a call, not a subexpression)
+                    let callee = toks[k] == "x" && k + 1 < toks.len() && toks[k + 1] == "(";
+                    if atom && !after_name && !callee {
+                        let mut v: Vec<String> = toks.iter().map(|t| t.to_string()).collect();
+                        v[k] = format!("( {} )", toks[k]);
+                        variants.push(("atom-wrapped".into(), v.join(" ")));
+                    }
+                    if toks[k] == "[" && !after_name {
+                        // the matching bracket, if the list is closed
+                        let mut depth = 0i32;
+                        for m in k..toks.len() {
+                            if toks[m] == "[" {
+                                depth += 1;
+                            }
+                            if toks[m] == "]" {
+                                depth -= 1;
+                                if depth == 0 {
+                                    let mut v: Vec<String> = toks.iter().map(|t| t.to_string()).collect();
+                                    v[k] = "( [".into();
+                                    v[m] = "] )".into();
+                                    variants.push(("list-wrapped".into(), v.join(" ")));
+                                    break;
+                                }
+                            }
+                        }
+                    }
+                    let mut v: Vec<String> = toks.iter().map(|t| t.to_string()).collect();
+                    v[k] = format!(" \t{}\n ", toks[k]);
+                    variants.push(("blanks-added".into(), v.join(" ")));
+                }
+                for (what, vt) in variants {
+                    out.evals += 1;
+                    match engine::parse(&vt) {
+                        Res::Ok(a) if a == base => {
+                            out.count("validated", 1);
+                            out.outcomes.insert("same-ast".into());
+                        }
+                        other => out.fail(format!("dual-role:{}:changes-ast", what), format!("dual-role-atom-parens|{}", show(&text)), format!("{:?} parses to {:?}, but {:?} gives {:?}", text, base, vt, other)),
+                    }
+                }
+            }
+            out.count("states", seqs.len());
+            out.count("transitions", seqs.len());
+            return;
+        }
         if stage == 1 {
             if a == 0 {
                 deep_layouts(0, out);
